@@ -92,7 +92,8 @@ Record tables := mk_tables {
   tb_listeners : list listener_call;
   tb_tls_uses : list tls_use;
   tb_tls_origin : list string;      (* arguments of the one transport.NewServerTLSConfig call *)
-  tb_tls_server_calls : list bool }. (* per tls.Server call inside the sniff: is it given the function's tlsConfig parameter *)
+  tb_tls_server_calls : list bool;
+  tb_sniff_shape : sniff_shape }. (* per tls.Server call inside the sniff: is it given the function's tlsConfig parameter *)
 
 Definition find_enc (T : tables) (file func : string) : option enc_site :=
   find (fun s => String.eqb (es_file s) file && String.eqb (es_func s) func) (tb_enc T).
@@ -455,7 +456,8 @@ Definition sniff_ok (T : tables) : bool :=
   forallb (fun l => match sniff_force T true l, sniff_force T false l with
                     | ForceIs true, ForceIs false => true | _, _ => false end) sniffing_kinds &&
   match sniff_force T true LkSsh with NoSniff => true | _ => false end &&
-  (length (tb_listeners T) =? 5)%nat.
+  (length (tb_listeners T) =? 5)%nat &&
+  match tb_sniff_shape T with SsOk => true | SsUnknown _ => false end.
 
 (* the frps listener a client configuration arrives on *)
 Definition listener_of (c : wcfg) : lkind :=
